@@ -15,8 +15,10 @@
  *
  * Case lines (one canonical output line per case, same as ocaml/drv_c17.ml):
  *   X <max> ; op , op ...       ops: N r | C i r | R i
- *   A <max> ; op , op ...       ops: c | w r | s i r | u i r | f i | j i | v i | g i | n | t i | k i
+ *   A <max> ; op , op ...       ops: c | w r | s i r | u i r | f i | j i | v i | g i | n | t i | k i | m i
  *   P <seed> <hosts> <ults> <exts> <nops> <maxrank>
+ *   K                           lock probe: set_new_rank / change_rank / return_rank block while the
+ *                               harness holds xstream_list_lock ("one locked step each")
  * argv[2] == "hist": print recorded histories instead (A: pthread-call
  * history per context; P: operation history with invocation/response stamps).
  */
@@ -136,6 +138,13 @@ static void vh_perturb(void)
         usleep(50);
 }
 
+static uint64_t vh_perturb_draw(void)
+{
+    if (!vh_prng)
+        vh_prng = vh_pseed * 0x9e3779b97f4a7c15ULL + (uint64_t)(uintptr_t)&vh_prng;
+    return vh_rand(&vh_prng) >> 20;
+}
+
 static int vh_held(vh_ctxrec *r)
 {
     return r && r->owned && pthread_equal(r->owner, pthread_self());
@@ -241,7 +250,16 @@ static int vh_wait(pthread_cond_t *c, pthread_mutex_t *m)
         vh_record(r, K_WE, held ? (int)r->p->state : -1, held);
         r->owned = 0;
     }
-    int ret = pthread_cond_wait(c, m);
+    int ret;
+    if (vh_pseed && (vh_perturb_draw() & 3) == 0) {
+        /* an injected spurious wake-up (POSIX allows pthread_cond_wait to return
+         * without a signal): release the mutex, let others run, take it again */
+        pthread_mutex_unlock(m);
+        sched_yield();
+        ret = pthread_mutex_lock(m);
+    } else {
+        ret = pthread_cond_wait(c, m);
+    }
     if (r) {
         r->owner = pthread_self();
         r->owned = 1;
@@ -471,6 +489,61 @@ static void do_x(char *line)
 }
 
 /* ------------------------------------------------------------------ */
+/* mode K: the three list operations run under xstream_list_lock.  The  */
+/* harness holds the lock of a private ABTI_global and lets a helper    */
+/* thread call the function: it must not finish before the release.     */
+typedef struct {
+    ABTI_global *g;
+    ABTI_xstream *x;
+    int which, rank;
+    volatile int started, done;
+} k_arg;
+static void *k_helper(void *p)
+{
+    k_arg *a = (k_arg *)p;
+    __atomic_store_n(&a->started, 1, __ATOMIC_RELEASE);
+    if (a->which == 0)
+        xstream_set_new_rank(a->g, a->x, a->rank);
+    else if (a->which == 1)
+        xstream_change_rank(a->g, a->x, a->rank);
+    else
+        xstream_return_rank(a->g, a->x);
+    __atomic_store_n(&a->done, 1, __ATOMIC_RELEASE);
+    return NULL;
+}
+static void do_k(void)
+{
+    ABTI_global *g = (ABTI_global *)calloc(1, sizeof(ABTI_global));
+    ABTI_xstream *x0 = (ABTI_xstream *)calloc(1, sizeof(ABTI_xstream));
+    ABTI_xstream *x1 = (ABTI_xstream *)calloc(1, sizeof(ABTI_xstream));
+    int which, blocked[3];
+    ABTD_spinlock_clear(&g->xstream_list_lock);
+    g->max_xstreams = 4;
+    xstream_set_new_rank(g, x0, -1);
+    for (which = 0; which < 3; which++) {
+        k_arg a = { g, x1, which, which == 0 ? 3 : 5, 0, 0 };
+        pthread_t th;
+        int spins;
+        ABTD_spinlock_acquire(&g->xstream_list_lock);
+        if (pthread_create(&th, NULL, k_helper, &a) != 0)
+            VH_DIE("pthread_create");
+        while (!__atomic_load_n(&a.started, __ATOMIC_ACQUIRE))
+            sched_yield();
+        /* the call itself takes well under a microsecond: give it 20 ms */
+        for (spins = 0; spins < 200 && !__atomic_load_n(&a.done, __ATOMIC_ACQUIRE); spins++)
+            usleep(100);
+        blocked[which] = !__atomic_load_n(&a.done, __ATOMIC_ACQUIRE);
+        ABTD_spinlock_release(&g->xstream_list_lock);
+        pthread_join(th, NULL);
+    }
+    printf("K %d %d %d | %d\n", blocked[0], blocked[1], blocked[2],
+           (int)ABTD_spinlock_is_locked(&g->xstream_list_lock));
+    free(x0);
+    free(x1);
+    free(g);
+}
+
+/* ------------------------------------------------------------------ */
 /* mode A: the public API with real streams                             */
 typedef struct {
     int newrank, r0, rc, r1;
@@ -588,6 +661,9 @@ static void do_a(char *line, int hist)
                 break;
             case 'j':
                 OB(" %d", ABT_xstream_join(h));
+                break;
+            case 'm':
+                OB(" %d", ABT_xstream_set_main_sched(h, ABT_SCHED_NULL));
                 break;
             case 'v':
                 OB(" %d", ABT_xstream_revive(h));
@@ -835,21 +911,22 @@ int main(int argc, char **argv)
     FILE *f = argc > 1 ? fopen(argv[1], "r") : stdin;
     int hist = argc > 2 && !strcmp(argv[2], "hist");
     char *line;
-    if (getenv("VH_PERTURB"))
-        vh_pseed = strtoull(getenv("VH_PERTURB"), NULL, 10) + 1;
+    vh_pseed = 1 + (getenv("VH_PERTURB") ? strtoull(getenv("VH_PERTURB"), NULL, 10) : 0);
     if (!f)
         VH_DIE("cannot open case file");
     setvbuf(stdout, NULL, _IOLBF, 0);
     signal(SIGALRM, vh_on_alarm);
     while ((line = vh_getline(f)) != NULL) {
         strncpy(vh_cur_case, line, sizeof(vh_cur_case) - 1);
-        alarm(getenv("VH_WATCHDOG") ? (unsigned)atoi(getenv("VH_WATCHDOG")) : 20);
+        alarm(getenv("VH_WATCHDOG") ? (unsigned)atoi(getenv("VH_WATCHDOG")) : 10);
         if (line[0] == 'X' && !hist)
             do_x(line);
         else if (line[0] == 'A')
             do_a(line, hist);
         else if (line[0] == 'P')
             do_p(line, hist);
+        else if (line[0] == 'K' && !hist)
+            do_k();
         else if (line[0] && line[0] != '#' && !hist)
             VH_DIE("bad line '%s'", line);
         free(line);
